@@ -1004,6 +1004,12 @@ func gridBigCore() []group {
 	ids := []any{map[string]any{"id": int64(4611686018427387904 + 28673)}, map[string]any{"id": int64(4611686018427387904 + 28672)}, map[string]any{"id": int64(7)}}
 	add("$[*] ? (@.id == $allowed[*])", ids, map[string]any{"allowed": allowed})
 	add("$[*] ? (!(@.id == $allowed[*]))", ids, map[string]any{"allowed": allowed})
+	// level bounds of .** at the int32 limit (the largest level the parser accepts)
+	for _, d := range []any{map[string]any{"a": map[string]any{"b": float64(1)}, "c": []any{float64(2), "x"}}, []any{float64(1), []any{float64(2)}}, float64(5)} {
+		for _, t := range []string{"$.**{2147483647 to last}", "$.**{2147483646 to last}", "$.**{2147483647}", "$.**{0 to 2147483647}", "$.**{0x7fffffff to last}", "$.**{1 to 2147483647}", "$.**{last to 2147483647}", "$.**{2147483647 to 2147483647}.a"} {
+			add(t, d, nil)
+		}
+	}
 	// long operand sequences without an early decision (polls inside a comparison loop)
 	thousand := map[string]any{"a": seq(1000, num), "s": seq(600, func(i int) any { return fmt.Sprint("s", i) })}
 	for _, t := range []string{"$.a[*] == -1", "exists($ ? (@.a[*] == -1))", "$.s[*] starts with \"zz\"", "$.s[*] like_regex \"^zz\"", "($.a[*] == -1) is unknown"} {
